@@ -6,6 +6,7 @@ package main
 
 import (
 	"fmt"
+	"os"
 	"math/big"
 	"sort"
 	"strconv"
@@ -250,6 +251,9 @@ func (s *Sim) handleTx(t *PendingTx, m *txMeta, obs *TxObs, r *abci.ExecTxResult
 		s.logf("note: tx of op %d (%s) aborted by a panic outside the receive path: %.200s", m.OpID, kind, oneLine(obs.Log))
 	}
 	if obs.IsPanic() && kind == "recv" {
+		if os.Getenv("VERIF_STACK") != "" {
+			fmt.Println(obs.Log)
+		}
 		fp := panicFingerprint(obs.Log)
 		s.violate("C14", "U1-no-panic", fp, fmt.Sprintf("tx of op %d (%s) aborted by a recovered panic: %.200s", m.OpID, kind, oneLine(obs.Log)))
 	}
